@@ -145,14 +145,15 @@ def run_harness(exe, job_lines_batches, outdir, prefix, parallel=16, timeout=120
                 # a killed harness may leave a partial last line: keep complete events only
                 fout.write(p.stdout if p.returncode >= 0 else p.stdout[:p.stdout.rfind(b"\n") + 1])
                 rc = p.returncode; err = p.stderr.decode(errors="replace")[-3000:]
-                if rc < 0:
+                if rc < 0 or (rc == 99 and not re.search(r"CRASH line=(\d+)", err)):
+                    # (also: the crash handler ran but its marker did not reach us - resume by counting the sessions that were opened)
                     # the harness itself was killed (out of memory, stack exhaustion in the handler...): the session being processed is the
                     # last one whose Open event was written; record that as a crash and go on with the next session
                     nopen = sum(1 for l in p.stdout.split(b"\n") if l.startswith(b'{"e":"Open"'))
                     starts = [i for i in range(start, len(lines)) if lines[i].startswith("RAW")]
                     if nopen == 0 or nopen > len(starts) or crashes > 3000:
                         break
-                    fout.write(('{"e":"Crashed","sig":%d}\n' % (-rc)).encode())
+                    fout.write(('{"e":"Crashed","sig":%d}\n' % (-rc if rc < 0 else 6)).encode())
                     crashes += 1
                     start = starts[nopen] if nopen < len(starts) else len(lines)
                     rc = 0
